@@ -113,5 +113,133 @@ def proposesRegion (nv : Nat) (R : Region) (out : Proposal × RS) : Bool :=
   !out.1.panic && out.1.subvars == R.subvars && maskOf nv out.1.subvars out.1.start == R.mask0 &&
     out.1.toggles == R.toggles
 
+/-! ### `find_constants` -/
+
+/-- the fold of `find_constants` over the first `n` variables -/
+def fcFold (sk : Skeleton) (n : Nat) : Consts :=
+  (List.range n).foldl (fun c v =>
+    let ps := sk.cps.getD v []
+    { varStarts := c.varStarts ++ [c.constantPs.length]
+      varLengths := c.varLengths ++ [ps.length]
+      constantPs := c.constantPs ++ ps
+      idle := if ps.isEmpty then c.idle ++ [v] else c.idle }) {}
+
+theorem fcFold_spec (sk : Skeleton) (n : Nat) :
+    (fcFold sk n).varLengths = (List.range n).map (fun v => (sk.cps.getD v []).length) ∧
+    (fcFold sk n).constantPs = ((List.range n).map (fun v => sk.cps.getD v [])).flatten ∧
+    (fcFold sk n).varStarts =
+      (List.range n).map (fun v => (((List.range v).map (fun u => sk.cps.getD u [])).flatten).length) ∧
+    (fcFold sk n).idle = (List.range n).filter (fun v => (sk.cps.getD v []).isEmpty) := by
+  induction n with
+  | zero => simp [fcFold]
+  | succ n ih =>
+    obtain ⟨h1, h2, h3, h4⟩ := ih
+    have e : fcFold sk (n + 1) =
+        { varStarts := (fcFold sk n).varStarts ++ [(fcFold sk n).constantPs.length]
+          varLengths := (fcFold sk n).varLengths ++ [(sk.cps.getD n []).length]
+          constantPs := (fcFold sk n).constantPs ++ sk.cps.getD n []
+          idle := if (sk.cps.getD n []).isEmpty then (fcFold sk n).idle ++ [n] else (fcFold sk n).idle } := by
+      unfold fcFold
+      rw [List.range_succ, List.foldl_append]
+      rfl
+    rw [e]
+    refine ⟨?_, ?_, ?_, ?_⟩
+    · simp only [h1, List.range_succ, List.map_append, List.map_cons, List.map_nil]
+    · simp only [h2, List.range_succ, List.map_append, List.map_cons, List.map_nil, List.flatten_append,
+        List.flatten_cons, List.flatten_nil, List.append_nil]
+    · simp only [h3, h2, List.range_succ, List.map_append, List.map_cons, List.map_nil]
+    · rw [h4, List.range_succ, List.filter_append]
+      by_cases hn : (sk.cps.getD n []).isEmpty = true
+      · rw [if_pos hn, List.filter_cons_of_pos (by simpa using hn)]; rfl
+      · rw [if_neg hn, List.filter_cons_of_neg (by simpa using hn)]; simp
+
+/-- `find_constants`: `var_lengths[v] = #constant ops on v`, `constant_ps` = the per-variable lists
+concatenated, `var_starts[v]` = number of constant ops on the variables before `v`,
+`vars_with_zero_ops` = the variables without constant ops, in increasing order. -/
+theorem findConstants_spec (sk : Skeleton) :
+    (findConstants sk).varLengths = (List.range sk.nvars).map (fun v => (sk.cps.getD v []).length) ∧
+    (findConstants sk).constantPs = ((List.range sk.nvars).map (fun v => sk.cps.getD v [])).flatten ∧
+    (findConstants sk).varStarts =
+      (List.range sk.nvars).map (fun v => (((List.range v).map (fun u => sk.cps.getD u [])).flatten).length) ∧
+    (findConstants sk).idle = (List.range sk.nvars).filter (fun v => (sk.cps.getD v []).isEmpty) :=
+  fcFold_spec sk sk.nvars
+
+/-- number of constant operators on the variables before `v` -/
+def preLen (sk : Skeleton) (v : Nat) : Nat :=
+  (((List.range v).map (fun u => sk.cps.getD u [])).flatten).length
+
+theorem preLen_succ (sk : Skeleton) (v : Nat) : preLen sk (v + 1) = preLen sk v + (sk.cps.getD v []).length := by
+  unfold preLen
+  rw [List.range_succ, List.map_append, List.flatten_append, List.length_append]
+  simp
+
+theorem preLen_mono (sk : Skeleton) {u v : Nat} (h : u ≤ v) : preLen sk u ≤ preLen sk v := by
+  induction v with
+  | zero => have : u = 0 := by omega
+            subst this; exact Nat.le_refl _
+  | succ n ih =>
+    by_cases hu : u = n + 1
+    · subst hu; exact Nat.le_refl _
+    · have := ih (by omega)
+      rw [preLen_succ]; omega
+
+theorem owner_count (sk : Skeleton) (n c : Nat) (hc : c < preLen sk n) :
+    let k := (((List.range n).map (preLen sk)).filter (· ≤ c)).length
+    1 ≤ k ∧ k ≤ n ∧ preLen sk (k - 1) ≤ c ∧ c < preLen sk k := by
+  induction n with
+  | zero => simp [preLen] at hc
+  | succ n ih =>
+    simp only [List.range_succ, List.map_append, List.map_cons, List.map_nil, List.filter_append]
+    by_cases hlt : c < preLen sk n
+    · have hf : List.filter (fun x => decide (x ≤ c)) [preLen sk n] = [] := by
+        rw [List.filter_cons_of_neg (by simp; omega)]; rfl
+      rw [hf, List.append_nil]
+      obtain ⟨h1, h2, h3, h4⟩ := ih hlt
+      exact ⟨h1, by omega, h3, h4⟩
+    · have hall : List.filter (fun x => decide (x ≤ c)) ((List.range n).map (preLen sk)) =
+          (List.range n).map (preLen sk) := by
+        rw [List.filter_eq_self]
+        intro x hx
+        rw [List.mem_map] at hx
+        obtain ⟨u, hu, rfl⟩ := hx
+        have := preLen_mono sk (Nat.le_of_lt (List.mem_range.1 hu))
+        simp; omega
+      have hf : List.filter (fun x => decide (x ≤ c)) [preLen sk n] = [preLen sk n] := by
+        rw [List.filter_cons_of_pos (by simp; omega)]; rfl
+      rw [hall, hf]
+      simp only [List.length_append, List.length_map, List.length_range, List.length_cons, List.length_nil]
+      refine ⟨by omega, by omega, ?_, ?_⟩
+      · have : n + (0 + 1) - 1 = n := by omega
+        rw [this]; omega
+      · exact hc
+
+/-- **the start cell's owner**: for a flat cell index `choice < #constant ops` the variable the model
+(and the binary search of the code) selects is the one whose block of `constant_ps` contains
+`choice`: `var_starts[v] ≤ choice < var_starts[v] + var_lengths[v]`. -/
+theorem pickStart_owner (sk : Skeleton) (choice : Nat) (h : choice < (findConstants sk).constantPs.length) :
+    let C := findConstants sk
+    let v := (C.varStarts.filter (· ≤ choice)).length - 1
+    v < sk.nvars ∧ C.varStarts.getD v 0 ≤ choice ∧ choice < C.varStarts.getD v 0 + C.varLengths.getD v 0 := by
+  obtain ⟨hL, hP, hS, _⟩ := findConstants_spec sk
+  have hlen : (findConstants sk).constantPs.length = preLen sk sk.nvars := by rw [hP]; rfl
+  have hS' : (findConstants sk).varStarts = (List.range sk.nvars).map (preLen sk) := hS
+  rw [hlen] at h
+  obtain ⟨h1, h2, h3, h4⟩ := owner_count sk sk.nvars choice h
+  simp only
+  rw [hS', hL]
+  generalize hk : (((List.range sk.nvars).map (preLen sk)).filter (· ≤ choice)).length = k at h1 h2 h3 h4
+  have hv : k - 1 < sk.nvars := by omega
+  have e1 : ((List.range sk.nvars).map (preLen sk)).getD (k - 1) 0 = preLen sk (k - 1) := by
+    simp [List.getD_eq_getElem?_getD, hv]
+  have e2 : ((List.range sk.nvars).map (fun v => (sk.cps.getD v []).length)).getD (k - 1) 0 =
+      (sk.cps.getD (k - 1) []).length := by
+    simp [List.getD_eq_getElem?_getD, hv]
+  rw [e1, e2]
+  refine ⟨hv, h3, ?_⟩
+  have : preLen sk k = preLen sk (k - 1) + (sk.cps.getD (k - 1) []).length := by
+    have : k = (k - 1) + 1 := by omega
+    rw [this, preLen_succ]; simp
+  omega
+
 end Rvb
 end Qmc
